@@ -626,9 +626,12 @@ class Evaluator:
         raise Und("undecidable conditional expression")
 
     def test(self, t, env, ctx) -> Optional[bool]:
-        if isinstance(t, ast.Compare) and len(t.ops) == 1:
-            l = self.ev(t.left, env, ctx)
-            r = self.ev(t.comparators[0], env, ctx)
+        if isinstance(t, ast.Compare) and len(t.ops) == 1 and isinstance(t.ops[0], (ast.Is, ast.IsNot)):
+            try:
+                l = self.ev(t.left, env, ctx)
+                r = self.ev(t.comparators[0], env, ctx)
+            except Und:
+                return None
             if isinstance(t.ops[0], (ast.Is, ast.IsNot)):
                 if isinstance(r, NoneV):
                     res = isinstance(l, NoneV)
